@@ -234,6 +234,12 @@ func (e *executor) processInput(workflow *Workflow) (schema.Scope, error) {
 	if !ok {
 		return nil, fmt.Errorf("bug: unserialized input is not a scope")
 	}
+	for objectID, object := range typedInput.Objects() {
+		if object.ID() != objectID {
+			return nil, &ErrInvalidWorkflow{fmt.Errorf(
+				"invalid workflow input section (the ID %q of object %q does not match its key)", object.ID(), objectID)}
+		}
+	}
 	typedInput.ApplySelf()
 	return typedInput, nil
 }
